@@ -84,6 +84,7 @@ def case_pwl(**p):
   case.encoded(PL.PWLCalibration.call, PL.PWLCalibration.build, PL.PWLCalibration.keypoints_inputs,
                PL.PWLCalibration.keypoints_outputs, pl.compute_interpolation_weights)
   layer = _layer(p)
+  _record_output_form(case, 'pwl', p)
   units, nk = p['units'], p['nk']
   cols = units if p.get('per_unit_input', False) else 1
   B = 1
@@ -95,7 +96,7 @@ def case_pwl(**p):
   def fn(*a):
     inp = list(a) if missing_flag else a[0]
     out = layer(inp)
-    if p.get('split') and units > 1:
+    if isinstance(out, (list, tuple)):  # the form itself is checked by 'output-form-as-documented'
       out = tf.concat(out, axis=1)
     return out, layer.keypoints_inputs(), layer.keypoints_outputs()
   tr = Traced(fn, specs_, name='PWLCalibration.call')
@@ -300,6 +301,41 @@ def case_pwl_monotone(**p):
   return case
 
 
+def _output_form(kind, p):
+  """the documented output form: a list of `units` (batch, 1) tensors iff split_outputs and units > 1 (split_outputs is ignored for
+  fewer than two units), otherwise one (batch, units) tensor; also what compute_output_shape declares"""
+  import tensorflow as tf
+  if kind == 'cat':
+    from tensorflow_lattice.python import categorical_calibration_layer as CL
+    layer = CL.CategoricalCalibration(num_buckets=p['buckets'], units=p['units'], default_input_value=p.get('default'),
+                                      split_outputs=p.get('split', False))
+    x = tf.zeros([2, p['units'] if p.get('per_unit_input') else 1], dtype=tf.int32)
+  else:
+    layer = _layer(p)
+    x = tf.zeros([2, p['units'] if p.get('per_unit_input') else 1])
+    if p.get('missing') and p.get('missing_input') is None:
+      x = [x, tf.zeros_like(x)]
+  out = layer(x)
+  units = p['units']
+  want_list = bool(p.get('split')) and units > 1
+  if want_list:
+    ok = isinstance(out, (list, tuple)) and len(out) == units and all(tuple(o.shape) == (2, 1) for o in out)
+  else:
+    ok = (not isinstance(out, (list, tuple))) and tuple(out.shape) == (2, units)
+  form = [tuple(o.shape) for o in out] if isinstance(out, (list, tuple)) else tuple(out.shape)
+  return ok, 'expected %s, got %r' % ('a list of %d (2, 1) tensors' % units if want_list else 'one (2, %d) tensor' % units, form)
+
+
+def _record_output_form(case, kind, p):
+  pp = {k: v for k, v in p.items() if k != 'name'}
+  try:
+    ok, note = _output_form(kind, pp)
+  except Exception as e:  # pylint: disable=broad-except
+    ok, note = False, '%s: %s' % (type(e).__name__, str(e)[:120])
+  case.record('output-form-as-documented', 'unsat' if ok else 'sat', kind='structural', witness={}, sig=dict(query='output-form', layer=kind),
+              replay=dict(fn='output-form', params=dict(pp, kind=kind)), note=note)
+
+
 def case_categorical(**p):
   import tensorflow as tf
   from tensorflow_lattice.python import categorical_calibration_layer as CL
@@ -309,10 +345,11 @@ def case_categorical(**p):
   layer = CL.CategoricalCalibration(num_buckets=nb, units=units, default_input_value=p.get('default'),
                                     split_outputs=p.get('split', False))
   cols = units if p.get('per_unit_input') else 1
+  _record_output_form(case, 'cat', p)
 
   def fn(a):
     out = layer(a)
-    if p.get('split') and units > 1:
+    if isinstance(out, (list, tuple)):  # the form itself is checked by 'output-form-as-documented'
       out = tf.concat(out, axis=1)
     return out
   dt = tf.int32 if p.get('int_input', True) else tf.float32
@@ -391,6 +428,12 @@ def replay(r):
   rp = r['replay']
   p = rp['params']
   w = r['witness']
+  if rp['fn'] == 'output-form':
+    try:
+      ok, note = _output_form(p['kind'], p)
+    except Exception as e:  # pylint: disable=broad-except
+      ok, note = False, '%s: %s' % (type(e).__name__, str(e)[:120])
+    return dict(reproduced=not ok, detail=note)
   if rp['fn'] == 'cat':
     from tensorflow_lattice.python import categorical_calibration_layer as CL
     layer = CL.CategoricalCalibration(num_buckets=p['buckets'], units=p['units'], default_input_value=p.get('default'),
@@ -503,6 +546,11 @@ def cases(tier, seed):
   add('case_categorical', buckets=4, units=2, default=7, per_unit_input=True)
   add('case_categorical', buckets=3, units=2, default=None, per_unit_input=False, split=True)
   add('case_categorical', buckets=3, units=1, default=-1, int_input=False)
+  # split_outputs is documented as ignored for fewer than two units
+  add('case_categorical', buckets=3, units=1, default=-1, split=True)
+  add('case_categorical', buckets=3, units=3, default=None, per_unit_input=True, split=True)
+  add('case_pwl', nk=3, spacing='a', units=1, split=True)
+  add('case_pwl', nk=3, spacing='a', units=2, split=True)
   if tier == 'thorough':
     for nk in (5, 6):
       add('case_pwl', nk=nk, spacing='a', units=1, required=False, timeout=300)
